@@ -1058,6 +1058,7 @@ func registerC01() {
 			Isolated: true,
 		},
 		procWorkload("process", map[string]int{"quick": 3000, "thorough": 200000}, true),
+		shrinkWorkload(map[string]int{"quick": 120, "thorough": 6000}),
 		{
 			// the signal grid once more, through the real binary (status / stderr / no stack trace)
 			Name:  "process-grid",
